@@ -70,22 +70,37 @@ Fixpoint all2 {A B} (p : A -> B -> bool) (a : list A) (b : list B) : bool :=
   | _, _ => false
   end.
 
-(* maxf, capacities, schedule, observed hand-offs, observed delayed reads per consumer *)
-Definition case := (N * list nat * list ev * list obsb * list (list obsb))%type.
+(* a stream case: maxf, capacities, schedule, observed hand-offs, observed delayed reads per consumer;
+   a websocket-out case: seed and size of the hub messages (message k = [wmsg seed blk k]), the schedule
+   (which messages reached the slow client: WOffer; WRest - which were dropped: WMiss n), and the websocket
+   messages the client received.  The model is the code as it is: Send unbuffered (capacity 0). *)
+Inductive case :=
+| CS (maxf : N) (caps : list nat) (evs : list ev) (tap : list obsb) (reads : list (list obsb))
+| CW (seed blk : N) (evs : list wev) (frames : list obsb).
 
-Definition model (c : case) : st :=
-  let '(maxf, caps, evs, _, _) := c in run false (N.to_nat maxf) (init caps) evs.
+Definition model (maxf : N) (caps : list nat) (evs : list ev) : st := run false (N.to_nat maxf) (init caps) evs.
+
+(* hub message k of a websocket-out stream: 4 marker bytes, its index (4 bytes, big endian), then input bytes *)
+Definition stamp (k : N) : bytes :=
+  [86; 87; 79; 58; N.land (N.shiftr k 24) 255; N.land (N.shiftr k 16) 255; N.land (N.shiftr k 8) 255; N.land k 255].
+Definition wmsg (seed blk : N) (k : nat) : bytes :=
+  let kn := N.of_nat k in stamp kn ++ gen seed (blk * kn + 8) (blk - 8).
+
+Definition wmodel (seed blk : N) (evs : list wev) : wst := wrun (wmsg seed blk) 0 evs.
 
 Definition case_ok (c : case) : bool :=
-  let '(_, _, _, tap, reads) := c in
-  let s := model c in
-  all2 obs_match (handed s) tap && all2 (all2 obs_match) (map got (cons s)) reads.
+  match c with
+  | CS maxf caps evs tap reads =>
+      let s := model maxf caps evs in
+      all2 obs_match (handed s) tap && all2 (all2 obs_match) (map got (cons s)) reads
+  | CW seed blk evs frames =>
+      all2 obs_match (map frame_bytes (wframes (wmodel seed blk evs))) frames
+  end.
 
-(* non-trivial: at least two messages were handed on and some consumer read a message that had stayed
-   queued or in hand over a later hand-off, or the flush threw bytes away *)
+(* non-trivial (stream): at least two messages were handed on and some consumer read a message that had
+   stayed queued or in hand over a later hand-off, or the flush threw bytes away;
+   (websocket-out): at least two websocket messages arrived and the hub dropped some in between *)
 Fixpoint exposed (fl : nat) (held : list (nat * nat)) (evs : list ev) : bool :=
-  (* fl = hand-offs so far; held = (consumer, hand-offs seen when that consumer last caught up) - kept simple:
-     a Consume that follows two or more hand-offs since the previous Consume of the same consumer *)
   match evs with
   | [] => false
   | Flush :: r | WsMsg _ :: r => exposed (S fl) held r
@@ -96,15 +111,23 @@ Fixpoint exposed (fl : nat) (held : list (nat * nat)) (evs : list ev) : bool :=
   end.
 
 Definition case_nontrivial (c : case) : bool :=
-  let '(_, _, evs, _, _) := c in
-  let s := model c in
-  (Nat.leb 2 (length (handed s))) && (exposed O [] evs || existsb (fun d => negb (beqb d [])) (dropped s)).
+  match c with
+  | CS maxf caps evs _ _ =>
+      let s := model maxf caps evs in
+      (Nat.leb 2 (length (handed s))) && (exposed O [] evs || existsb (fun d => negb (beqb d [])) (dropped s))
+  | CW seed blk evs frames =>
+      Nat.leb 2 (length frames) && existsb (fun e => match e with WMiss _ => true | _ => false end) evs
+  end.
 
 Definition case_flags (c : case) : list bool * list (list bool) :=
-  let '(_, _, _, tap, reads) := c in
-  let s := model c in
-  (map (fun p => obs_match (fst p) (snd p)) (combine (handed s) tap),
-   map (fun p => map (fun q => obs_match (fst q) (snd q)) (combine (fst p) (snd p))) (combine (map got (cons s)) reads)).
+  match c with
+  | CS maxf caps evs tap reads =>
+      let s := model maxf caps evs in
+      (map (fun p => obs_match (fst p) (snd p)) (combine (handed s) tap),
+       map (fun p => map (fun q => obs_match (fst q) (snd q)) (combine (fst p) (snd p))) (combine (map got (cons s)) reads))
+  | CW seed blk evs frames =>
+      (map (fun p => obs_match (fst p) (snd p)) (combine (map frame_bytes (wframes (wmodel seed blk evs))) frames), [])
+  end.
 
 Definition mismatches (cs : list case) : list N := mismatch_idx case_ok 0 cs.
 Definition nontrivial (cs : list case) : list N := idx_where case_nontrivial cs.
